@@ -86,6 +86,8 @@ EDGE_TEXTS = [
     # the same letter in both cases is two different variables
     "2x + 3X", "4p^2 + 3P^2", "x * X", "2x * 3X^2", "(2x + y) + 3X", "2x + 3X = 10", "x + X = 2x", "x / X", "x - X", "X + (x + X)",
     "1.5x + 1.5x", "0.1x + 0.2x", "0.1 + 0.2", "0.1 * 3", "1 / 3", "2 / 3 * 3", "10 * 0.1", "1000000 * 1000000", "99999 * 99999 + 1", "7x + 7x^1", "x^2 + x^2.0",
+    # factorial of a literal written with a decimal point (whole value): the printed form drops the point
+    "3.0!", "4.! + x", "x + 3.0!", "03.00! * y", "2 * 5.0! - z", "0.0! + 1.0!",
     # coefficients with a fractional part beyond 2^32 (every value exactly representable; a half is not rounding noise)
     "3x + 4294967297.5x", "8589934594x - (4294967296.5x + 4294967297.5x)", "4294967297.5x + 2x = 1", "5000000000.25y + 3y", "2y + 9999999999.5y", "4294967296.5z^2 + 4294967297.5z^2",
     "1073741824.5x + x", "3.5x + 8589934592.5x",
